@@ -64,11 +64,13 @@ def world(h):
     return trace
 
 
-def t_lifecycle(op, status):
+def t_lifecycle(op, status, otype='LIMIT', side='buy'):
     def t(h):
         trace = world(h)
-        o = common.mk_order(h, side='buy', type='LIMIT', qty=h.real('q'), price=h.real('p'), symbol='BTC-USDT', exchange='Sandbox',
-                            reduce_only=False, status=status)
+        q = h.real('q')
+        h.assume(ops.compare('>', q, 0) if side == 'buy' else ops.compare('<', q, 0))
+        o = common.mk_order(h, side=side, type=otype, qty=q, price=h.real('p'), symbol='BTC-USDT', exchange='Sandbox',
+                            reduce_only=h.branch(h.bool('reduce_only')), status=status)
         before = dict(o.f)
         h.cover(f'{op}.{status}.pre')
         out = h.method_outcome(o, op)
@@ -101,7 +103,7 @@ def t_lifecycle(op, status):
             out3 = h.method_outcome(o, other)
             h.prove(out3.ok and trace == [] and ops.equal(o.f['status'], want_status) is True,
                     f'{op}.then-{other}-is-a-no-op', {'clause': 'an order never leaves its terminal status'})
-        if op == 'execute' and status == 'ACTIVE':
+        if op == 'execute' and status == 'ACTIVE' and otype == 'LIMIT' and side == 'buy':
             h.prove(ops.equal(o.f['status'], 'ACTIVE'), 'execute.mustfail')
     return t
 
@@ -267,7 +269,9 @@ def tasks(tier):
     ts = []
     for op in ('execute', 'cancel'):
         for status in ('ACTIVE', 'EXECUTED', 'CANCELED'):
-            ts.append(Task(f'{op}.{status}', t_lifecycle(op, status), extra=x, overrides=dict(ov)))
+            for otype in ('LIMIT', 'STOP', 'MARKET'):
+                for side in ('buy', 'sell'):
+                    ts.append(Task(f'{op}.{status}.{otype}.{side}', t_lifecycle(op, status, otype, side), extra=x, overrides=dict(ov)))
     ts.append(Task('writers', t_writers, extra=x))
     xb = dict(x)
     xb['bounded'] = 'registry of N=3 orders (statuses symbolic)'
